@@ -250,6 +250,125 @@ class _LoopCuts(ast.NodeTransformer):
     visit_While = _loop
 
 
+class _MergeIfs(ast.NodeTransformer):
+    """State merging for simple conditionals (DESIGN 2.4).
+
+        if TEST: BODY [else: ORELSE]
+    whose arms only assign names / array elements (possibly inside for-range loops and nested simple ifs) becomes
+        __g = __pyvc_guard__(TEST)            # True / False when concrete, else a Bool term wrapper
+        if __g is True: BODY
+        elif __g is False: ORELSE
+        else:
+            __pyvc_push__(__g, True);  BODY';   __pyvc_pop__()
+            __pyvc_push__(__g, False); ORELSE'; __pyvc_pop__()
+    Under a pushed guard, element stores into symbolic arrays write ite(guard, new, old) (SymArray.__setitem__) and the primed
+    bodies have every name assignment  x = v  rewritten to  x = __pyvc_sel__(v, lambda: x).  Both arms are executed, so the
+    result is the exact merge of the two paths; every guarded store is logged on the engine (E.guard_log)."""
+
+    def __init__(self):
+        self.n = 0
+
+    @staticmethod
+    def _simple(stmts):
+        for st in stmts:
+            if isinstance(st, ast.Pass):
+                continue
+            if isinstance(st, ast.Expr) and isinstance(st.value, ast.Constant):
+                continue
+            if isinstance(st, ast.Assign):
+                if all(_MergeIfs._target_ok(t) for t in st.targets):
+                    continue
+                return False
+            if isinstance(st, ast.AugAssign):
+                if _MergeIfs._target_ok(st.target):
+                    continue
+                return False
+            if isinstance(st, ast.For):
+                if st.orelse or not isinstance(st.target, ast.Name):
+                    return False
+                it = st.iter
+                if not (isinstance(it, ast.Call) and isinstance(it.func, ast.Name) and it.func.id == 'range'):
+                    return False
+                if not _MergeIfs._simple(st.body):
+                    return False
+                continue
+            if isinstance(st, ast.If):
+                if _MergeIfs._simple(st.body) and _MergeIfs._simple(st.orelse):
+                    continue
+                return False
+            return False
+        return True
+
+    @staticmethod
+    def _target_ok(t):
+        if isinstance(t, ast.Name):
+            return True
+        if isinstance(t, ast.Subscript):
+            return isinstance(t.value, ast.Name)
+        if isinstance(t, ast.Tuple):
+            return all(isinstance(e, ast.Name) for e in t.elts)
+        return False
+
+    def _prime(self, stmts):
+        out = []
+        for st in stmts:
+            if isinstance(st, ast.Assign) and len(st.targets) == 1 and isinstance(st.targets[0], ast.Name):
+                nm = st.targets[0].id
+                st = ast.Assign(targets=[ast.Name(id=nm, ctx=ast.Store())],
+                                value=ast.Call(func=ast.Name(id='__pyvc_sel__', ctx=ast.Load()),
+                                               args=[st.value, ast.Lambda(args=ast.arguments(posonlyargs=[], args=[], kwonlyargs=[], kw_defaults=[], defaults=[]),
+                                                                          body=ast.Name(id=nm, ctx=ast.Load()))], keywords=[]))
+            elif isinstance(st, ast.Assign) and any(isinstance(t, (ast.Name, ast.Tuple)) for t in st.targets):
+                raise _NoMerge()
+            elif isinstance(st, ast.AugAssign) and isinstance(st.target, ast.Name):
+                nm = st.target.id
+                val = ast.BinOp(left=ast.Name(id=nm, ctx=ast.Load()), op=st.op, right=st.value)
+                st = ast.Assign(targets=[ast.Name(id=nm, ctx=ast.Store())],
+                                value=ast.Call(func=ast.Name(id='__pyvc_sel__', ctx=ast.Load()),
+                                               args=[val, ast.Lambda(args=ast.arguments(posonlyargs=[], args=[], kwonlyargs=[], kw_defaults=[], defaults=[]),
+                                                                     body=ast.Name(id=nm, ctx=ast.Load()))], keywords=[]))
+            elif isinstance(st, ast.For):
+                st = ast.For(target=st.target, iter=st.iter, body=self._prime(st.body), orelse=[])
+            elif isinstance(st, ast.If):
+                st = self.visit_If(ast.If(test=st.test, body=st.body, orelse=st.orelse), nested=True)
+                if isinstance(st, list):
+                    out.extend(st)
+                    continue
+            out.append(st)
+        return out or [ast.Pass()]
+
+    def visit_If(self, node, nested=False):
+        if not nested:
+            self.generic_visit(node)
+        if not (self._simple(node.body) and self._simple(node.orelse)):
+            return node
+        import copy as _copy
+        try:
+            body_p = self._prime(_copy.deepcopy(node.body))
+            else_p = self._prime(_copy.deepcopy(node.orelse)) if node.orelse else None
+        except _NoMerge:
+            return node
+        self.n += 1
+        g = '__pyvc_g%d' % self.n
+        L = lambda i: ast.Name(id=i, ctx=ast.Load())
+        call = lambda f, *a: ast.Expr(ast.Call(func=L(f), args=list(a), keywords=[]))
+        assign = ast.Assign(targets=[ast.Name(id=g, ctx=ast.Store())], value=ast.Call(func=L('__pyvc_guard__'), args=[node.test], keywords=[]))
+        merged = [call('__pyvc_push__', L(g), ast.Constant(True))] + body_p + [call('__pyvc_pop__')]
+        if else_p is not None:
+            merged += [call('__pyvc_push__', L(g), ast.Constant(False))] + else_p + [call('__pyvc_pop__')]
+        inner = ast.If(test=ast.Compare(left=L(g), ops=[ast.Is()], comparators=[ast.Constant(False)]),
+                       body=list(node.orelse) or [ast.Pass()], orelse=merged)
+        outer = ast.If(test=ast.Compare(left=L(g), ops=[ast.Is()], comparators=[ast.Constant(True)]), body=list(node.body), orelse=[inner])
+        new = [assign, outer]
+        for st in new:
+            ast.copy_location(st, node)
+        return new
+
+
+class _NoMerge(Exception):
+    pass
+
+
 # ----------------------------------------------------------------------------
 # built-ins seen by re-instantiated modules
 
@@ -371,7 +490,8 @@ class LazyPackage(object):
 
 
 class Loader(object):
-    def __init__(self, repo=None, overrides=None, loopspec=None, native=()):
+    def __init__(self, repo=None, overrides=None, loopspec=None, native=(), merge=None):
+        self.merge = merge            # None: merge simple ifs in .pyx files only; list of repo-relative paths otherwise
         self.repo = repo or REPO
         self.overrides = dict(overrides or {})
         self.loopspec = loopspec or {}
@@ -438,6 +558,8 @@ class Loader(object):
         spec = self.loopspec.get(rel)
         if spec:
             tree = _LoopCuts(spec).visit(tree)
+        if (self.merge is None and path.endswith('.pyx')) or (self.merge is not None and rel in self.merge):
+            tree = _MergeIfs().visit(tree)
         ast.fix_missing_locations(tree)
         code = compile(tree, path, 'exec')
         mod = types.ModuleType(dotted)
@@ -447,6 +569,11 @@ class Loader(object):
         mod.__dict__['__pyvc_const__'] = _const_from_literal
         mod.__dict__['__pyvc_loop__'] = self._loop_hook
         mod.__dict__['__pyvc_get__'] = self._loop_get
+        from . import engine as _eng
+        mod.__dict__['__pyvc_guard__'] = _eng.guard_value
+        mod.__dict__['__pyvc_push__'] = _eng.guard_push
+        mod.__dict__['__pyvc_pop__'] = _eng.guard_pop
+        mod.__dict__['__pyvc_sel__'] = _eng.guard_select
         self.modules[dotted] = mod
         try:
             exec(code, mod.__dict__)
